@@ -488,7 +488,7 @@ def run(ctx):
         if r["op"] not in seen and last["err"] == "none" and (r["op"] != "clip" or len(last["steps"][-1]) < len(r["c"]["x"])):
             seen.add(r["op"])
             ctx.sample({"op": r["op"], "case": r["c"], "params": r["runs"][-1]["p"], "observed": r["runs"][-1]["o"]}, cap=8)
-    judge(ctx, recs, "judge replayed cases (StatsTrace)")
+    rejected = set(judge(ctx, recs, "judge replayed cases (StatsTrace)"))
     # 3. larger seeded cases (code -> spec)
     nrand = 1500 if ctx.quick else 30000
     sj = seeded_jobs(random.Random(ctx.seed), nrand, opts)
@@ -497,7 +497,7 @@ def run(ctx):
         ctx.count({"op": r["op"], "c": r["c"]}, n=len(r["runs"]))
     judge(ctx, rrecs, "judge seeded larger cases (StatsTrace)")
     # 4. binding self-test: corrupted observations must be rejected, the untouched ones accepted
-    selftest(ctx, recs)
+    selftest(ctx, [r for r in recs if r["id"] not in rejected])      # probe accepted records only (a broken tree must not break the self-test)
     ctx.rule = ("every (data, weights) pair with data of length %d..%d over %d lattice values and weights over %s (total <= %d) x "
                 "calcerr x sdev x inputmean in {none, %s}; every N-by-2 input (N <= %d) with 1-d and N-by-2 weights; every clipping "
                 "input of length <= %d over %s (weighted: length <= %d, weights %s) x nsig in %s x niter 0..%d (each iteration "
@@ -554,7 +554,8 @@ def selftest(ctx, recs):
             o["back"][0][0] = dict(o["back"][0][0], n=o["back"][0][0]["n"] + 1)
         probes += [good, bad]
         expect_reject.add(bad["id"])
-    if len(picks) != len(EXEC):
+    if len(picks) != len(EXEC) and not ctx.violations:
+        # (on a tree that breaks an operation every record of it may be rejected: its probe is then skipped)
         raise MachineryError("self-test: no clean record for some op: %s" % sorted(picks))
     rej = tracecheck.validate(ctx, "StatsTrace.tla", probes, what="self-test: corrupted records rejected", workers=1)
     ctx.traces = saved
